@@ -111,6 +111,10 @@ func setup(c Case) (finalize fin, resp []byte, verify func(tokens [][]byte) erro
 		if e != nil {
 			return nil, nil, nil, e
 		}
+		// the client object makes one more request (other nonce, other challenge) while these are outstanding
+		if _, e := wa.Create(mc.Fill(seedv, "c02-decoy-chal", 40), mc.Fill(seedv, "c02-decoy-nonce", 32), nil); e != nil {
+			return nil, nil, nil, e
+		}
 		mc.Entropy(fmt.Sprintf("c02-eval-t1-b%d-r%d", c.KeyB, c.ReqJ))
 		r, se := wb.EvaluateWire(stj.Request().Marshal())
 		if se != nil {
@@ -150,6 +154,9 @@ func setup(c Case) (finalize fin, resp []byte, verify func(tokens [][]byte) erro
 		mc.Entropy(lbl(c.ReqJ))
 		stj, e := wa.Create(chalOf(2, c.KeyA, c.ReqJ), nonceOf(2, c.KeyA, c.ReqJ, 0), blind, salt)
 		if e != nil {
+			return nil, nil, nil, e
+		}
+		if _, e := wa.Create(mc.Fill(seedv, "c02-decoy-chal", 40), mc.Fill(seedv, "c02-decoy-nonce", 32), nil, nil); e != nil {
 			return nil, nil, nil, e
 		}
 		r, se := wb.EvaluateWire(stj.Request().Marshal())
@@ -259,6 +266,9 @@ func setup(c Case) (finalize fin, resp []byte, verify func(tokens [][]byte) erro
 		mc.Entropy(lbl(c.ReqJ))
 		stj, e := wa.Create(chalOf(5, c.KeyA, c.ReqJ), nonces(c.ReqJ), nil)
 		if e != nil {
+			return nil, nil, nil, e
+		}
+		if _, e := wa.Create(mc.Fill(seedv, "c02-decoy-chal", 40), [][]byte{mc.Fill(seedv, "c02-decoy-nonce", 32)}, nil); e != nil {
 			return nil, nil, nil, e
 		}
 		reqObj := stj.Request()
